@@ -495,8 +495,8 @@ class DataFrameInternal:
         if any(field.name == colName for field in self.bound_schema.fields):
             # replace the existing column(s) of that name in place
             return self.select(*[
-                new_col if field.name == colName else parse(FieldAsExpression(field))
-                for field in self.bound_schema.fields
+                new_col if field.name == colName else parse(FieldAsExpression(field, position))
+                for position, field in enumerate(self.bound_schema.fields)
             ])
         return self.select(parse("*"), new_col)
 
